@@ -90,6 +90,15 @@ class Q:
         self._inflight[key] = d
         return d
 
+    def introspect_coalesced_direct(self, key):
+        # P6 again, without a local: `return self._inflight[key]`
+        if key in self._inflight:
+            return self._inflight[key]
+        d = self.call(key)
+        d.addBoth(self._done, key)
+        self._inflight[key] = d
+        return d
+
     def introspect_fanout(self, key):
         waiting = self._waiting.get(key)
         if waiting is not None:
